@@ -41,6 +41,8 @@ fn maps() -> Vec<Beatmap> {
         // plain and repeat sliders
         MapSpec { diff: gen::DiffPreset::D2, ..MapSpec::new(0, (0..14).map(|i| o(if i % 3 == 1 { Kind::SliderLong } else if i % 3 == 2 { Kind::Slider5 } else { Kind::Circle }, 90, if i % 2 == 0 { PosK::Far } else { PosK::Near }, if i % 4 == 0 { 4 } else { 0 }, 0)).collect()) }.decode(),
         MapSpec { diff: gen::DiffPreset::D1, ..MapSpec::new(0, vec![o(Kind::Slider2, 0, PosK::Far, 0, 0), o(Kind::Circle, 1500, PosK::Far, 0, 0), o(Kind::Slider5, 2500, PosK::Far, 8, 0), o(Kind::SliderLong, 3000, PosK::Far, 0, 0)]) }.decode(),
+        // #9: a long osu! map (130 objects) — size thresholds (a fast path, a cache, a registry "worth it" only for big maps)
+        MapSpec { repeat: 65, ..MapSpec::new(0, vec![o(Kind::Circle, 130, PosK::Far, 0, 0), o(Kind::Slider2, 200, PosK::Near, 8, 0)]) }.decode(),
     ]
 }
 
@@ -53,6 +55,8 @@ fn setts() -> Vec<Setting> {
         Setting::bits(settings::KEY7),
         // #5: hard-rock offsets without the mod
         Setting { hr_offsets: Some(true), ..Setting::nm() },
+        // #6: another key mod (two conversions of one shared map that must not be mistaken for each other)
+        Setting::bits(settings::KEY4),
     ]
 }
 
@@ -127,7 +131,7 @@ impl World {
 fn jobs(len: usize) -> Vec<Vec<Step>> {
     let mut v: Vec<Vec<Step>> = Vec::new();
     // taiko with two different Random seeds, mania convert with Random and key mods, osu, plus gradual walks
-    let bases: Vec<(u8, u8, u8)> = vec![(0, 0, 0), (1, 1, 2), (1, 1, 3), (0, 3, 2), (0, 3, 4), (2, 3, 3), (0, 1, 1), (0, 2, 1), (5, 2, 5), (6, 2, 1), (7, 3, 0), (8, 3, 0)];
+    let bases: Vec<(u8, u8, u8)> = vec![(0, 0, 0), (1, 1, 2), (1, 1, 3), (0, 3, 2), (0, 3, 4), (2, 3, 3), (0, 1, 1), (0, 2, 1), (5, 2, 5), (6, 2, 1), (7, 3, 0), (8, 3, 0), (9, 3, 4), (9, 3, 6)];
     for &(map, dst, s) in &bases {
         let mut a = vec![Step::Difficulty { map, dst, s }, Step::Performance { map, dst, s }, Step::Strains { map, dst, s }];
         a.truncate(len);
@@ -164,6 +168,8 @@ fn guard_jobs() -> Vec<Vec<Step>> {
         vec![Step::Difficulty { map: 6, dst: 2, s: 1 }, Step::Difficulty { map: 6, dst: 2, s: 5 }],
         vec![Step::Convert { map: 7, dst: 3, s: 0 }, Step::Difficulty { map: 7, dst: 3, s: 0 }],
         twice(Step::Difficulty { map: 8, dst: 3, s: 0 }),
+        vec![Step::Convert { map: 9, dst: 3, s: 4 }, Step::Difficulty { map: 9, dst: 3, s: 4 }],
+        vec![Step::Convert { map: 9, dst: 3, s: 6 }, Step::Difficulty { map: 9, dst: 3, s: 6 }],
     ]
 }
 
@@ -281,7 +287,7 @@ fn main() {
         std::env::set_var("VERIF_NO_EVIDENCE", "1");
     }
     let ctx = Ctx::from_env("C20");
-    ctx.rule("(A) interference: every assignment of jobs (difficulty / performance / strains calls, gradual difficulty and gradual performance walks split into their steps; taiko and mania conversions with two different Random seeds and key mods; shared &Beatmap) from a pool to T threads and every interleaving of the threads' calls (T=2 x 3 calls: 20 schedules per assignment; T=3 x 2 calls: 90; thorough T=3 x 3: 1680) executed on real OS threads under the baton scheduler; oracle = every call returns the value it returns when its thread runs alone, shared maps unchanged. (B) hand-over: every gradual calculator that is Send in this build (all of them in the `sync` build, which the default build runs as a child) is moved between T <= 3 threads at the step boundaries: all T^n ownership sequences, n <= 4 (quick) / 5, incl. create on one thread and drop on another; oracle = the single-thread sequence. (D) shared-access preemption: 16 jobs of two calls, all 136 unordered pairs on two real threads with the pages of the library's writable statics and of the shared Beatmap structs protected; scheduling points = thread start, call boundaries, every write to a guarded region, every read of a location some job writes; every choice vector with <= 2 preemptions, each execution in a fresh process; oracle = every call returns what it returns when its job runs alone in a fresh process, also when repeated sequentially after the concurrent run. (C) free-running: the (A) job bodies on 16 unsynchronised threads for a fixed number of rounds against the sequential table — sampling, reported separately under coverage.free_running and not part of the exhaustive claim; non-trivial = schedules with more than one thread / ownership sequences that change thread");
+    ctx.rule("(A) interference: every assignment of jobs (difficulty / performance / strains calls, gradual difficulty and gradual performance walks split into their steps; taiko and mania conversions with two different Random seeds and key mods; shared &Beatmap) from a pool to T threads and every interleaving of the threads' calls (T=2 x 3 calls: 20 schedules per assignment; T=3 x 2 calls: 90; thorough T=3 x 3: 1680) executed on real OS threads under the baton scheduler; oracle = every call returns the value it returns when its thread runs alone, shared maps unchanged. (B) hand-over: every gradual calculator that is Send in this build (all of them in the `sync` build, which the default build runs as a child) is moved between T <= 3 threads at the step boundaries: all T^n ownership sequences, n <= 4 (quick) / 5, incl. create on one thread and drop on another; oracle = the single-thread sequence. (D) shared-access preemption: 18 jobs of two calls, all 171 unordered pairs on two real threads with the pages of the library's writable statics and of the shared Beatmap structs protected; scheduling points = thread start, call boundaries, every write to a guarded region, every read of a location some job writes; every choice vector with <= 2 preemptions, each execution in a fresh process; oracle = every call returns what it returns when its job runs alone in a fresh process, also when repeated sequentially after the concurrent run. (C) free-running: the (A) job bodies on 16 unsynchronised threads for a fixed number of rounds against the sequential table — sampling, reported separately under coverage.free_running and not part of the exhaustive claim; non-trivial = schedules with more than one thread / ownership sequences that change thread");
     ctx.assume("(A)/(B) switch threads at public call boundaries only; that is complete iff two calculations share no mutable location, which (D) checks on this very build: every access to the library's writable statics (found in the binary's symbol table) and to the shared Beatmap structs is intercepted, and where a job writes such a location all schedules with <= 2 preemptions at those accesses are explored. Outside every exhaustive part: heap state reached only through a pointer stored in a static, weak-memory reorderings; (C) samples those");
 
     let world = World { maps: Box::leak(maps().into_boxed_slice()), setts: setts() };
